@@ -116,6 +116,8 @@ func enumerate(tier string, emit func(string)) {
 	emit(mkSpec("newline", "", "a~[~&b~]", "0"))
 	emit(mkSpec("newline", "", "a~%~[~&b~]", "0"))
 	emit(mkSpec("newline", "", "a~%~?", `"~&b"`, "nil"))
+	emit(mkSpec("newline", "", "a~%~?", `"~&b"`, "(1)"))
+	emit(mkSpec("newline", "", "a~%~@?", `"~&b"`))
 
 	// ~A ~S over the object core
 	objs := []string{`0`, `-7`, `18446744073709551617`, `1/3`, `1.5`, `"str"`, `"a\"b\\c"`, `""`, `"héllo"`, `#\a`, `#\Space`,
@@ -240,6 +242,7 @@ func enumerate(tier string, emit func(string)) {
 			emit(mkSpec("non-integer", "", "~"+d, o))
 		}
 	}
+	emit(mkSpec("non-integer", "", "~vD|~D", "4", "7", `#\c`))
 	// printer variables do not leak into the integer directives; ~A follows princ
 	for _, env := range []string{"pb2", "pb16"} {
 		for _, d := range []string{"D", "B", "O", "X", ":D", "@X", "8,'0B", "A", "S", "R", ":R", "@R", "3R"} {
@@ -324,6 +327,7 @@ func enumerate(tier string, emit func(string)) {
 			emit(mkSpec("cond", "", "~#[none~;~A~;~A and ~A~:;~A, ~A, ...~]|", rest...))
 		}
 	}
+	emit(mkSpec("cond", "", "~:[z~;~[zero~;one~:;many~]~]|", "()", "1"))
 	emit(mkSpec("cond", "", "~[a~;b~]|", "18446744073709551617"))
 	emit(mkSpec("cond", "", "~[a~;b~:;c~]|", "-18446744073709551617"))
 	for _, a := range []string{"nil", "()", "t", "0", `""`, "(1)", "sym"} {
